@@ -1,13 +1,16 @@
 #!/usr/bin/env python3
-"""tools/vsum.py <property>: summarise the violation replays of a property by class and first line."""
+"""tools/vsum.py <property> [width] [dir]: summarise violation replays by class and first line (numbers and hashes masked)."""
 import json,glob,collections,re,sys
-pid=sys.argv[1]
+pid=sys.argv[1]; width=int(sys.argv[2]) if len(sys.argv)>2 else 200
+d=sys.argv[3] if len(sys.argv)>3 else '/verif/replays/%s'%pid
 c=collections.Counter(); ex={}
-for f in sorted(glob.glob('/verif/replays/%s/*.json'%pid)):
+for f in sorted(glob.glob(d+'/*.json')):
     v=json.load(open(f))
     w=v['what'].split('\n')[0]
-    k=(v.get("classifier"),re.sub(r"[0-9.]+ ?s","Ns",re.sub(r"plan \{.*?\}: ","",w))[:int(sys.argv[2]) if len(sys.argv)>2 else 200])
+    k=re.sub(r"plan \{.*?\}: ","",w)
+    k=re.sub(r"[0-9a-f]{32}","H",k); k=re.sub(r"[0-9.]+ ?s\b","Ns",k); k=re.sub(r"final=.*","",k)
+    k=(v.get("classifier"),k[:width])
     c[k]+=1
-    ex.setdefault(k,(f,w[:600]))
+    ex.setdefault(k,f)
 for k,n in c.most_common():
-    print(n,k); print('     ',ex[k])
+    print(n,k,ex[k])
